@@ -118,6 +118,17 @@ CHECKS['C16'] = dict(
          'named user functions, function items crossing parser instances.',
     technique='SMT-based symbolic execution (CrossHair/z3) of enumerated function-item programs vs direct-call expansion',
     design='DESIGN.md §4 C16')
+CHECKS['C05'] = dict(
+    text='Enumerated binding programs (for/let/some/every incl. nested re-binding and two-variable for, inline-function parameters '
+         'shadowing outer variables, for consumed by exists()/head(), quantifier inside a predicate, maps re-read after map:put) are '
+         'executed symbolically with every variable value a solver variable over histories A, B, A of the same token: results equal '
+         'the definitional values, the third evaluation equals the first, the caller\'s variables dict is unchanged, names unbound '
+         'outside stay unbound (XPST0008). Selector.select = list(iter_select), repeatable across documents, on a 4-element tree '
+         'with symbolic labels whose structure, attributes and text are unchanged afterwards.',
+    note='Trusted: CrossHair int/str/dict models, pure-Python ElementTree under the solver (real ElementTree on replay). Out: schema '
+         'objects, namespace maps, histories longer than 3; date/time variable immutability is bug-hunting only.',
+    technique='SMT-based symbolic execution (CrossHair/z3) of enumerated binding programs over 3-step histories with symbolic values',
+    design='DESIGN.md §4 C05')
 NOT_APPLICABLE = {
     'C04': 'Quantifies over program syntax and hash seeds: no value domain to make symbolic; symbolic source text does not get through '
            'the tokenizer regex under CrossHair (600 CPU-s, len<=2, no verdict); a table-level z3 check would verify a model of the '
